@@ -13,6 +13,7 @@ CONSTANTS MaxN, MaxLen, MaxLen3
 
 MCTotal(b) == b[1].len
 MCTooLarge(b) == b[1].big
+MCSkip(b) == FALSE      \* (skipped messages are exercised by the trace validation: Gen_Framing stream unk1)
 
 FdCfgs == {<<>>, <<"F">>, <<"L">>, <<"F", "F">>, <<"F", "L">>}
 Shapes == [len : HDR..MaxLen, f : FdCfgs]
